@@ -10,7 +10,7 @@ addresses 2 then 1) is submitted while somebody else holds address 1. The HTTP a
 address 2, fails on address 1 and returns without closing address 2; run stops only the *other*
 apps. The attempt is rejected, the config read back is config 1 — and address 2 answers with
 tag 2. Protocol line (Driver.witnessLines), replayed on the real code on every run:
-  L=0~-~3,1,0,0,-=1,0,-,3,3 L=0~-~3,2,0,2.1,-=1,0,1,3,3
+  L=0~-~3,1,0,0,-=1,0,0,-,3,3 L=0~-~3,2,0,2.1,-=1,0,0,1,3,3
 -/
 import CaddyModel.C01.Lemmas
 
